@@ -265,6 +265,11 @@ def gen_cases(prop, seed, n_types, per):
             if prop == "C08" and t.kind == "typeddict" and isinstance(d, dict) and rnd.random() < 0.5:
                 # additional keys of a TypedDict holding containers: returned, and copied unless no_copy
                 o["ap"] = True; d = dict(d); d[rnd.choice(["zz_extra", "other_extra"])] = rnd.choice([[1, [2]], {"k": [1]}, [], {}])
+            if prop in ("C01", "C05", "C08") and t.kind == "typeddict" and isinstance(d, dict) and rnd.random() < 0.5:
+                # an additional key spelled like the *name* of a field that is read under another alias: kept out of the result (the field's place is the field's)
+                renamed = [f for f in getattr(t, "fields", []) if f["alias"] != f["name"]]
+                if renamed:
+                    o["ap"] = True; d = dict(d); d[rnd.choice(renamed)["name"]] = rnd.choice([[1, [2]], {"k": [1]}, 3, "s"])
             base = {"int": "int", "cint": "int", "float": "float", "cfloat": "float", "str": "str", "cstr": "str"}.get(t.kind)
             if base and prop in ("C01", "C02", "C06") and rnd.random() < 0.3:
                 # per-call `schema=` argument: a second constraint set merged with the type's own
